@@ -208,7 +208,8 @@ class TorchCalls(TorchOps):
         if fn == "dict.fromkeys":
             return self.dict_fromkeys(args, node)
         if fn == "zip":
-            return self.zip(args, node)
+            strict = isinstance(kwargs.get("strict"), Const) and kwargs["strict"].v is True
+            return self.zip([self.consume(a, node, full=strict) for a in args], node)  # stops with the shortest: longer iterators keep a rest
         if fn == "enumerate":
             lst = self.to_list(args[0], "list", node)
             if isinstance(lst, ListV) and lst.items is not None:
@@ -309,7 +310,7 @@ class TorchCalls(TorchOps):
             self.ev("setattr", node, attr=args[1].v if isinstance(args[1], Const) else "?")
             return NONE
         if fn in ("any", "all"):
-            lst = self.to_list(args[0], "list", node)
+            lst = self.to_list(self.consume(args[0], node, full=False), "list", node)  # short-circuits: the rest of an iterator stays
             if isinstance(lst, ListV) and lst.items is not None:
                 ts = [I.truth(x) for x in lst.items]
                 if all(t is not None for t in ts):
@@ -322,7 +323,12 @@ class TorchCalls(TorchOps):
             lo, hi, st_ = (NONE, a[0], NONE) if len(a) == 1 else (a[0], a[1], a[2] if len(a) == 3 else NONE)
             return ListV(items=(lo, hi, st_), kind="slice")
         if fn in ("iter",):
-            return args[0]
+            if isinstance(args[0], ListV) and args[0].it is not None:
+                return args[0]  # iter(iterator) is the iterator itself
+            lst = self.to_list(args[0], "list", node)
+            return self.fresh_iter(lst) if isinstance(lst, ListV) else lst
+        if fn == "next" and 1 <= len(args) <= 2 and isinstance(args[0], ListV) and args[0].it is not None:
+            return self.iter_next(args[0], args[1] if len(args) == 2 else None, node)
         if fn == "next" and 1 <= len(args) <= 2:
             lst = self.to_list(args[0], "list", node)
             if isinstance(lst, ListV) and lst.items is not None:
@@ -425,6 +431,8 @@ class TorchCalls(TorchOps):
                      length=stop if len(args) == 1 else (stop if len(args) == 2 and self.const_int(args[0]) == 0 else None))
 
     def to_list(self, v, kind, node):
+        if isinstance(v, ListV) and v.it is not None:
+            v = self.consume(v, node)
         if isinstance(v, ListV):
             return replace(v, kind=kind)
         if isinstance(v, SetV):
